@@ -59,7 +59,7 @@ LATTICES = {
         "strong-skew": np.array([[1.0, 0.0, 0.0], [0.8, 0.6, 0.0], [0.7, 0.3, 0.5]]),
         "two-skew": np.array([[1.0, 0.0, 0.2], [0.85, 0.5, 0.0]])},
 }
-POINTSETS = ("inside", "outside", "boundary")
+POINTSETS = ("inside", "outside", "boundary", "far-orth")
 
 
 def make_points(dim, rv, kind, seed):
@@ -77,8 +77,10 @@ def make_points(dim, rv, kind, seed):
             frac[1] = np.where(np.arange(len(vec)) == 0, 1.0, 0.5)
             frac[2] = 0.5
         p = frac @ vec
-        # components orthogonal to the lattice (when nvec < dim)
-        p = p + _orth_part(vec, rng.uniform(-0.6, 0.6, (n, dim)))
+        # components orthogonal to the lattice (when nvec < dim); "far-orth": some points far along the non-periodic
+        # directions (nothing periodic brings them back)
+        spread = 0.6 if kind != "far-orth" else np.array([0.6, 0.6, 45.0, 0.6, 0.6, -80.0])[:, None]
+        p = p + _orth_part(vec, rng.uniform(-1.0, 1.0, (n, dim)) * spread)
     w = rng.uniform(0.1, 1.0, n)
     return (p[:, 0] if dim == 1 else p), w
 
@@ -485,6 +487,8 @@ def run(ctx):
             for wrap in (False, True):
                 for pk in POINTSETS:
                     if menu[lname] is None and (pk != "inside"):
+                        continue
+                    if pk == "far-orth" and (menu[lname] is None or len(np.atleast_2d(menu[lname])) >= dim or dim == 1):
                         continue
                     jobs.append((dim, lname, wrap, pk, ctx.seed))
     for res in lattice.pmap(_case, jobs, ctx.workers, chunksize=2):
